@@ -10,6 +10,11 @@ Correspondence (the extracted Gallina model FitsModel.v is the independent reade
   (6) the extracted hypothesis of C06_roundtrip, wf_table', is evaluated on every generated table (coverage.counts:
       tables_satisfying_theorem_hypotheses / tables_checked_against_theorem_hypotheses); wf_table' without wf_doc (to_doc t)
       would contradict the proved C06_wf_doc and is reported as a violation.
+  (7) auxiliary values hold the quote character in every position (single, doubled, leading, trailing, runs, quotes only, at the
+      length limit): every (key, value) is OFFERED to write_key; the extracted FitsModel.write_key_offer predicts which offers are
+      refused (reserved name; encoded length, every quote counted twice, above the limit) and the harness reports what write_key
+      did; the expected reloaded value is value + padding blanks (aux_reloaded, computed here and by the extracted definition) and
+      is compared EXACTLY with what each reader returns.
 Table text format (harness, OCaml driver, this file):
   order o..| naxes n..| strides s..| knots i hex64..| coef hex32..| extents hex64..|none | periods hex64..|none |
   periodtok hexstr..|none | aux hexkey hexval   (hexstr: hex of the bytes, '-' for the empty string)"""
@@ -22,7 +27,7 @@ ASSUMPTIONS = [
     "the theorems are about the Gallina model FitsModel.v (L1: write_fits_core/read_fits_core logic, L2: the FITS subset); cfitsio and the C++ are tied to it differentially on every run, not verified",
     "data words are raw bit patterns: bit-for-bit equality of coefficients/knots/extents is a statement about N; cfitsio copies IEEE words unchanged for BITPIX -32/-64 with no BSCALE/BZERO (observed, not proved)",
     "integer arithmetic unbounded in the model (no uint64 wrap of the coefficient count; no-overflow is a stated hypothesis)",
-    "the tie covers auxiliary values without the quote character (since C16's fix the library's reader un-doubles quotes, the model's reader returns them doubled: the theorems hold for the model there, the correspondence is not exercised); auxiliary keys not colliding with keywords cfitsio itself interprets (BSCALE, BZERO, BLANK, XTENSION, ...); the names fits_movnam_hdu compares (EXTNAME, HDUNAME) ARE offered to write_key: the model (FitsModel.reserved over the list translated from reservedFitsKeyword) predicts the refusal and the reader skipping such a card in a foreign file",
+    "auxiliary values: printable characters INCLUDING the quote in every position (the model reader un-doubles as read_fits_core does, fitsio.h 262-279; the model of write_key's limits, FitsModel.write_key_offer, counts a quote twice as aux.h 152 does and predicts every refusal); HIERARCH entries whose card needs cfitsio's compressed form 'key= value' (encoded length = 67 - keylen) are not generated (C06_write_key_fit_gap); auxiliary keys not colliding with keywords cfitsio itself interprets (BSCALE, BZERO, BLANK, XTENSION, ...); the names fits_movnam_hdu compares (EXTNAME, HDUNAME) ARE offered to write_key: the model (FitsModel.reserved over the list translated from reservedFitsKeyword) predicts the refusal and the reader skipping such a card in a foreign file",
     "wf_table' (hypothesis of C06_roundtrip) is a table-level predicate: limits of the C types and of the 80-column card in its standard 'HIERARCH key = value' form; operator== model (table_op_eq) is a hand transcription of splinetable.h 349-368, the real operator== is called on every round trip",
     "PERIODn header values are outside the property's list (%.15G formatting is not bit exact); carried as opaque text, compared only after parsing",
 ]
@@ -44,8 +49,16 @@ RESERVED = ["BITPIX", "SIMPLE", "TYPE", "ORDER", "NAXIS", "PERIOD", "EXTEND", "C
 
 def hx(b):
     return b.hex() if b else "-"
-def pad8(b):
-    return b + b" " * max(0, 8 - len(b))
+def enc_len(b):
+    """write_key's encodedlen (aux.h 152): every quote is doubled on the card"""
+    return len(b) + b.count(b"'")
+def reloaded(b):
+    """FitsWf.aux_reloaded: the value a reader returns — the value itself (quotes single again) followed by the blanks that padded its
+    doubled card text to 8 characters"""
+    return b + b" " * max(0, 8 - enc_len(b))
+def max_data_len(key):
+    """write_key's maxdatalen (aux.h 89, 136)"""
+    return 68 if len(key) <= 8 else 80 - (13 + len(key))
 def cfitsio_double(v):
     s = "%.15G" % v
     if "." not in s and "E" not in s and "N" not in s:
@@ -87,7 +100,7 @@ class Case:
         aux = self.offers if for_input == "offers" else self.aux
         L.append("naux %d" % len(aux))
         for k, v in aux:
-            L.append("aux %s %s" % (hx(k), hx(pad8(v) if read_back else v)))
+            L.append("aux %s %s" % (hx(k), hx(reloaded(v) if read_back else v)))
         L.append("end")
         return L
     def to_json(self):
@@ -120,6 +133,64 @@ class Case:
                 "extents": "none" if self.extents is None else ("default" if self.extents == self.default_extents() else "custom"),
                 "periods": self.periods is not None, "naux": len(self.aux), "refused_offers": [k.decode("latin1") for k, _ in self.refused]}
 
+PLAIN = [c for c in range(32, 127) if c != 39]
+def fit_encoded(v, budget):
+    """longest prefix of v whose encoded length (quotes twice) is within budget"""
+    while enc_len(v) > budget:
+        v = v[:-1]
+    return v
+def gen_quoted_value(rng, key, budget, style):
+    """a value holding the quote character. budget = largest ENCODED length that fits the card in the standard form. All styles but
+    q_overflow stay within it (write_key stores them and wf_table' holds); q_overflow has at most maxdatalen characters but an encoded
+    length above write_key's own limit, so that it is the doubling that makes write_key refuse (short keys: > 68; HIERARCH: > 67 - keylen)."""
+    plain = lambda n: bytes(rng.choice(PLAIN) for _ in range(n))
+    q = b"'"
+    if style == "q_single":
+        a, b = rng.rint(0, 6), rng.rint(0, 6)
+        v = plain(a) + q + plain(b)
+    elif style == "q_doubled":
+        v = plain(rng.rint(0, 5)) + q + q + plain(rng.rint(0, 5))
+    elif style == "q_leading":
+        v = q * rng.rint(1, 2) + plain(rng.rint(0, 10))
+    elif style == "q_trailing":
+        v = plain(rng.rint(0, 10)) + q * rng.rint(1, 2)
+    elif style == "q_run3":
+        v = plain(rng.rint(0, 4)) + q * rng.rint(3, 5) + plain(rng.rint(0, 4))
+    elif style == "q_only":
+        v = q * rng.rint(1, max(1, budget // 2))
+    elif style == "q_random":
+        dens = rng.choice([0.1, 0.3, 0.6])
+        v = bytes(39 if rng.chance(dens) else rng.choice(PLAIN) for _ in range(rng.rint(1, budget)))
+    elif style == "q_limit":
+        # encoded length exactly at the budget, quotes among the last characters (where a truncation or a miscount would bite)
+        nq = rng.rint(1, min(4, budget // 2))
+        tail = [q] * nq + [plain(1) for _ in range(rng.rint(0, 2))]
+        rng.shuffle(tail)
+        tail = b"".join(tail)
+        if rng.chance(0.5):
+            tail = tail + q                        # ends in a quote
+        tail = fit_encoded(tail, budget)
+        v = plain(budget - enc_len(tail)) + tail
+        assert enc_len(v) == budget
+        return v
+    else:   # q_overflow
+        limit = max_data_len(key)                  # write_key's limit on the encoded length
+        over = rng.rint(1, 3)
+        nq = rng.rint(over, over + 3)              # at least `over` quotes: without doubling the value would be accepted
+        body = limit + over - 2 * nq
+        if body < 0:
+            nq = (limit + over) // 2
+            body = limit + over - 2 * nq
+        parts = [q] * nq + [plain(1) for _ in range(body)]
+        if rng.chance(0.5):
+            rng.shuffle(parts)                     # quotes anywhere; else all in front ... or, below, all at the end
+        elif rng.chance(0.5):
+            parts.reverse()
+        v = b"".join(parts)
+        assert enc_len(v) == limit + over and len(v) <= limit
+        return v
+    return fit_encoded(v, budget)
+
 def gen_aux(rng, n):
     aux, seen = [], set()
     alpha = b"ABCDEFGHIJKLMNOPQRSTUVWXYZ0123456789"
@@ -140,20 +211,24 @@ def gen_aux(rng, n):
         else:
             continue
         seen.add(ks)
+        # budget for the ENCODED value (every quote twice): what fits on the card in the standard form "HIERARCH key = 'value'"
         maxlen = 68 if len(key) <= 8 else 66 - len(key)
-        style = rng.choice(["short", "short", "any", "max", "empty", "blanks", "number"])
-        if style == "empty":
+        style = rng.choice(["short", "short", "any", "max", "empty", "blanks", "number",
+                            "q_single", "q_doubled", "q_leading", "q_trailing", "q_run3", "q_only", "q_random", "q_limit", "q_overflow"])
+        if style.startswith("q_"):
+            v = gen_quoted_value(rng, key, maxlen, style)
+        elif style == "empty":
             v = b""
         elif style == "number":
             v = str(rng.rint(-10 ** 6, 10 ** 6)).encode() if rng.chance(0.5) else repr(rng.unit() * 1000).encode()
         else:
             ln = {"short": rng.rint(1, 12), "any": rng.rint(0, maxlen), "max": maxlen, "blanks": rng.rint(1, 10)}[style]
             ln = min(ln, maxlen)
-            chars = [c for c in range(32, 127) if c != 39]
-            v = bytes(rng.choice(chars) for _ in range(ln))
+            v = bytes(rng.choice(PLAIN) for _ in range(ln))
             if style == "blanks":
                 v = b" " * rng.rint(0, 2) + v.strip(b" ")[: max(0, maxlen - 4)] + b" " * rng.rint(0, 2)
-        aux.append((key, v[:maxlen]))
+            v = v[:maxlen]
+        aux.append((key, v))
     # offers of the HDU-name keywords (to be refused) and of their near misses (to be stored), anywhere in the sequence
     if rng.chance(0.3):
         for _ in range(rng.rint(1, 3)):
@@ -390,25 +465,39 @@ class Runner:
     def p(self, name):
         return os.path.join(self.work, name)
     def split_offers(self, cases):
-        """asks the model which of the offered keys write_key refuses (FitsModel.reserved, i.e. reservedFitsKeyword with the lists
-        translated from the current tree): c.aux = the entries the table holds afterwards, c.refused = the others"""
-        keys = sorted({k for _, c in cases for k, _ in c.offers})
-        if not keys:
+        """asks the model which of the offered (key, value) pairs write_key refuses — FitsModel.write_key_offer: reserved name
+        (reservedFitsKeyword with the lists translated from the current tree), key longer than 66, or encoded value length (every
+        quote counted twice) above maxdatalen: c.aux = the entries the table holds afterwards, c.refused = the others; and what the
+        theorem says comes back for each stored value (FitsWf.aux_reloaded), cross-checked against the formula used here"""
+        offers = sorted({(k, v) for _, c in cases for k, v in c.offers})
+        if not offers:
             return
-        open(self.p("k.list"), "w").write("".join("%d %s -\n" % (i, k.hex() or "-") for i, k in enumerate(keys)))
-        pk = run_stack([self.model, "reserved", self.p("k.list")])
+        open(self.p("k.list"), "w").write("".join("%d %s %s\n" % (i, hx(k), hx(v)) for i, (k, v) in enumerate(offers)))
+        pk = run_stack([self.model, "offer", self.p("k.list")])
         res = {}
         for l in pk.stdout.split("\n"):
             w = l.split()
-            if len(w) >= 3 and w[-1] == "ok":
-                res[keys[int(w[0])]] = w[1] == "reserved=1"
-        if pk.returncode != 0 or len(res) != len(keys):
-            raise BuildError("model driver failed (reserved): %s" % pk.stderr[-500:])
+            if len(w) >= 5 and w[-1] == "ok":
+                f = dict(x.split("=", 1) for x in w[1:-1])
+                res[offers[int(w[0])]] = f
+        if pk.returncode != 0 or len(res) != len(offers):
+            raise BuildError("model driver failed (offer): %s %s" % (pk.stdout[-300:], pk.stderr[-500:]))
+        st = self.stats
         for _, c in cases:
-            c.aux = [(k, v) for k, v in c.offers if not res[k]]
-            c.refused = [(k, v) for k, v in c.offers if res[k]]
-            self.stats["write_key_offers"] = self.stats.get("write_key_offers", 0) + len(c.offers)
-            self.stats["write_key_refusals_predicted"] = self.stats.get("write_key_refusals_predicted", 0) + len(c.refused)
+            c.aux = [(k, v) for k, v in c.offers if res[(k, v)]["offer"] == "Stored"]
+            c.refused = [(k, v) for k, v in c.offers if res[(k, v)]["offer"] != "Stored"]
+            c.refusal_code = {k: ("R" if res[(k, v)]["offer"] == "RefusedReserved" else "O") for k, v in c.refused}
+            st["write_key_offers"] = st.get("write_key_offers", 0) + len(c.offers)
+            st["write_key_refusals_predicted"] = st.get("write_key_refusals_predicted", 0) + len(c.refused)
+            st["write_key_too_long_refusals_predicted"] = st.get("write_key_too_long_refusals_predicted", 0) + \
+                sum(1 for k, v in c.refused if res[(k, v)]["offer"] == "RefusedTooLong")
+            for k, v in c.aux:
+                if b"'" in v:
+                    st["stored_values_with_quotes"] = st.get("stored_values_with_quotes", 0) + 1
+                if res[(k, v)]["reloaded"] != hx(reloaded(v)):
+                    raise BuildError("extracted aux_reloaded %s differs from the check's formula %s for value %s" % (res[(k, v)]["reloaded"], hx(reloaded(v)), hx(v)))
+                if res[(k, v)]["entry_ok"] != "1":
+                    st["stored_entries_outside_aux_entry_ok"] = st.get("stored_entries_outside_aux_entry_ok", 0) + 1
     def execute(self, cases):
         """cases: list of (id, Case). Returns list of failures: (signature, text, payload)."""
         fails = []
@@ -506,14 +595,19 @@ class Runner:
                 self.stats["cases_skipped_after_reader_crash"] = self.stats.get("cases_skipped_after_reader_crash", 0) + 1
                 continue
             want = c.lines(read_back=True)
-            # (0) write_key refused exactly the offers the model refuses (and for the reason the model gives: reserved name)
+            # (0) write_key refused exactly the offers the model refuses, and for the reason the model gives (R: reserved name, O: any
+            #     other exception — here: the value, with its quotes doubled, is too long for the card)
             got_ref = [x for x in dict(kv.split("=", 1) for kv in wstat[cid].split()[1:] if "=" in kv).get("refused", "-").split(",") if x != "-"]
-            want_ref = [(k.hex() or "-") + ":R" for k, _ in c.refused]
+            want_ref = [(k.hex() or "-") + ":" + getattr(c, "refusal_code", {}).get(k, "R") for k, _ in c.refused]
             self.stats["comparisons"] += 1
             if got_ref != want_ref:
                 names = lambda L: [bytes.fromhex(x.split(":")[0]).decode("latin1") + x[-2:] if x[0] != "-" else x for x in L]
-                fail(cid, c, "write_key:refusal:%s" % ("accepted-a-reserved-name" if len(got_ref) < len(want_ref) else "refused-a-storable-name"),
-                     "write_key refused %s, the model (reservedFitsKeyword as translated) refuses %s" % (names(got_ref), names(want_ref)))
+                longq = any(x.endswith(":O") for x in set(got_ref) ^ set(want_ref))
+                kind = ("accepted-an-overlong-value" if len(got_ref) < len(want_ref) else "refused-a-storable-value") if longq else \
+                       ("accepted-a-reserved-name" if len(got_ref) < len(want_ref) else "refused-a-storable-name")
+                fail(cid, c, "write_key:refusal:%s" % kind,
+                     "write_key refused %s, the model (write_key_offer: reservedFitsKeyword as translated; encoded length with every quote counted twice against 68 / 67-keylen) refuses %s"
+                     % (names(got_ref), names(want_ref)))
                 continue
             # harness sanity: the object the library wrote is the case
             od = read_dump(self.p(cid + ".orig"))
@@ -760,14 +854,19 @@ def run(info, out):
         b = "0" if not c.aux else ("1-5" if len(c.aux) <= 5 else "6-20")
         dist["naux"][b] = dist["naux"].get(b, 0) + 1
         dist.setdefault("tables_with_refused_name_key_offers", 0)
-        dist["tables_with_refused_name_key_offers"] += 1 if c.refused else 0
+        dist["tables_with_refused_name_key_offers"] += 1 if any(k in NAME_KEYS for k, _ in c.refused) else 0
+        dist.setdefault("tables_with_overlong_quoted_offers_refused", 0)
+        dist["tables_with_overlong_quoted_offers_refused"] += 1 if any(k not in NAME_KEYS for k, _ in c.refused) else 0
+        dist.setdefault("tables_with_quotes_in_stored_values", 0)
+        dist["tables_with_quotes_in_stored_values"] += 1 if any(b"'" in v for _, v in c.aux) else 0
         dist["special_coefficients"] += 1 if c.has_special() else 0
         for o in c.orders:
             dist["orders"][o] = dist["orders"].get(o, 0) + 1
     cov.update({"evaluations": r.stats["comparisons"], "distinct_nontrivial": len(distinct),
                 "rule": "random tables: 1..%d dims, pairwise different axis lengths, orders 0..5, coefficient bit patterns incl. NaN (quiet/signalling/payload), +-inf, -0, denormals, "
-                        "knots uniform/random/wild/with special values, extents default/custom/absent, periods absent/present, 0..20 auxiliary keys (short and HIERARCH, quote-free values incl. empty, "
-                        "blank-padded, maximal length), in 30 %% of the tables also 1..3 offers of EXTNAME / HDUNAME (values KNOTSn, EXTENTS, ...: refused, as the model predicts) or of near misses "
+                        "knots uniform/random/wild/with special values, extents default/custom/absent, periods absent/present, 0..20 auxiliary keys (short and HIERARCH; values incl. empty, blank-padded, maximal length, and — 9 of 16 styles — "
+                        "holding quotes: single, doubled, leading, trailing, runs of 3..5, quotes only, random density, encoded length exactly at the card limit with quotes at the end, and offers whose "
+                        "length is admissible but whose doubled length is 1..3 above write_key's limit: refused, as write_key_offer predicts), in 30 %% of the tables also 1..3 offers of EXTNAME / HDUNAME (values KNOTSn, EXTENTS, ...: refused, as the model predicts) or of near misses "
                         "(EXTNAMES, HDUVER, ...: stored); every written file also re-read with EXTNAME / HDUNAME cards edited into its primary header; non-trivial = >= 2 dims or special coefficient values or auxiliary keys; distinct by content hash" % (6 if tier == "quick" else 9),
                 "samples": [c.describe() for _, c in cases[:3]],
                 "traces_validated_against_impl": r.stats["model_reads_of_library_bytes"] + r.stats["library_reads_of_model_bytes"],
